@@ -699,10 +699,10 @@ func init() {
 			"distinct_nontrivial = distinct (value-type set, hostile-pattern set, length class, format) tuples",
 		Assume: []string{"encoding/json defines value equality (numbers by value)", "definitions are single lines without leading/trailing blanks"},
 		Subs: []core.Sub{
-			{Name: "roundtrip", N: core.Const(64, 256), Run: runRoundTrip},
-			{Name: "reparse", N: core.Const(32, 128), Run: runReparse},
-			{Name: "stream", N: core.Const(32, 128), Run: runStream},
-			{Name: "e2e", N: core.Const(24, 120), Run: runE2E},
+			{Name: "roundtrip", N: core.Const(64, 2048), Run: runRoundTrip},
+			{Name: "reparse", N: core.Const(32, 1024), Run: runReparse},
+			{Name: "stream", N: core.Const(32, 1024), Run: runStream},
+			{Name: "e2e", N: core.Const(24, 480), Run: runE2E},
 		},
 		Cmds:          []string{"obiconvert"},
 		MinNontrivial: 200,
